@@ -75,7 +75,9 @@ def _dec2x(x, places=None, base=16):
             x += y << 1
         x = _xfunc[base](int(x))[2:].upper()
         if places is not None:
-            places = int(places)
+            places = _parseDEC(places)  # A referenced cell comes as an array.
+            if isinstance(places, XlError):
+                return places
             if 10 >= places >= len(x):  # Excel accepts at most 10 places.
                 return x.zfill(int(places))
         else:
